@@ -74,17 +74,21 @@ pub fn disarm() -> (u64, u64) {
 // lookup is counted: a parse entry point that consults the process environment then takes the
 // path it would take on a machine where that variable happens to be set.
 
+#[cfg(not(miri))]
 use std::os::raw::c_char;
 static ENV_ARMED: AtomicU8 = AtomicU8::new(0);
 static ENV_LOOKUPS: AtomicU64 = AtomicU64::new(0);
+#[cfg(not(miri))]
 static ONE: [u8; 2] = *b"1\0";
 
+#[cfg(not(miri))]
 extern "C" {
     static environ: *const *const c_char;
 }
 
 /// # Safety
 /// `name` must be a NUL-terminated string (libc contract).
+#[cfg(not(miri))]
 #[no_mangle]
 pub unsafe extern "C" fn getenv(name: *const c_char) -> *mut c_char {
     if ENV_ARMED.load(Ordering::Relaxed) != 0 {
